@@ -1,5 +1,6 @@
 import SLModel.Core.Filter
 import SLModel.Lemmas.Filter
+import SLModel.Lemmas.FilterMore
 /-!
 # C08 — filters follow the documented filter semantics
 
@@ -24,9 +25,11 @@ code): both a missed match and a false match.
 
 What is proved: `flatten_sound_partial` — the statement for every schema (any nesting depth),
 every document in which each nested path has at most one parent object carrying a non-null
-value (`singleCarrier`, decidable), and every filter tree whose leaf clauses name plain
-(undotted) fields.  Plus small facts about the clause tests (case folding, inclusive typed
-ranges, any value of a multi-valued field) and the fuel-free reading of `Spec.passes`.
+value (`singleCarrier`, decidable), and every filter tree whose leaf clauses below `Nested`
+clauses name plain (undotted) fields; dotted paths are allowed at the top level, where the
+documentation describes them.  Plus small facts about the clause tests (case folding, inclusive
+typed ranges, any value of a multi-valued field) and the fuel-free reading of `Spec.passes`
+(`spec_fuel_irrelevant`, `spec_and`, `spec_or`, `spec_not`, `spec_nested`).
 -/
 set_option linter.unusedSectionVars false
 set_option linter.unusedSimpArgs false
@@ -37,17 +40,70 @@ open SL.Doc
 variable {σ : Type} [DecidableEq σ]
 
 /-- **C08, proved part.**  For documents with at most one carrier per nested path the code's
-column evaluation equals the documented tree semantics, for every filter tree over plain field
-names: `And`/`Or`/`Not`, nested clauses at any depth, sibling nested clauses of one `And` bound to
-one object, parent/child binding. -/
+column evaluation equals the documented tree semantics, for every filter tree: `And`/`Or`/`Not`,
+nested clauses at any depth, sibling nested clauses of one `And` bound to one object,
+parent/child binding, dotted paths at the top level (`plainInside`: below a `Nested` clause leaf
+clauses name plain fields — the only documented form). -/
 theorem flatten_sound_partial (fold : σ → σ) (s : Schema σ) (kv : JO σ) (f : Filter σ)
-    (hs : singleCarrier s kv = true) (hp : f.allPlain = true) :
+    (hs : singleCarrier s kv = true) (hp : f.plainInside = true) :
     Col.passes fold (flatten s kv) f = Spec.passes fold s kv f := by
   unfold Col.passes Spec.passes flatten
-  have h := eval_sim fold f.size (rootProps s) none (.obj kv) 0 none f
-    (by simpa [singleCarrier, objsOf] using hs) (by simp [objsOf])
-    (Or.inr ⟨rfl, by simp [objsOf]⟩) hp
+  have h := eval_top_sim fold f.size (rootProps s) none (.obj kv) f
+    (by simpa [singleCarrier, objsOf] using hs) (by simp [objsOf]) hp
   simpa [objsOf] using h
+
+/-- the same for filters without any dotted name -/
+theorem flatten_sound_partial_plain (fold : σ → σ) (s : Schema σ) (kv : JO σ) (f : Filter σ)
+    (hs : singleCarrier s kv = true) (hp : f.allPlain = true) :
+    Col.passes fold (flatten s kv) f = Spec.passes fold s kv f :=
+  flatten_sound_partial fold s kv f hs (allPlain_plainInside f hp)
+
+/-! ## `Spec.passes` read without fuel
+
+`Spec.eval` recurses on a fuel argument because the members of an `And` are regrouped by path;
+`Spec.passes` runs it with fuel `f.size`.  Any larger fuel gives the same answer, and the
+semantics satisfies the equations one would write down directly. -/
+
+theorem spec_fuel_irrelevant (fold : σ → σ) (s : Schema σ) (kv : JO σ) (f : Filter σ) (n : Nat)
+    (h : f.size ≤ n) : Spec.eval fold n (rootProps s) kv f = Spec.passes fold s kv f :=
+  Spec.eval_fuel fold n (rootProps s) kv f h
+
+theorem spec_not (fold : σ → σ) (s : Schema σ) (kv : JO σ) (g : Filter σ) :
+    Spec.passes fold s kv (.not g) = !Spec.passes fold s kv g :=
+  Spec.sat_not fold (rootProps s) kv g
+
+theorem spec_or (fold : σ → σ) (s : Schema σ) (kv : JO σ) (fs : List (Filter σ)) :
+    Spec.passes fold s kv (.or fs) = fs.any (Spec.passes fold s kv) :=
+  Spec.sat_or fold (rootProps s) kv fs
+
+/-- a nested clause: some object of the named child of the current object satisfies the inner
+filter (and so on below: `Spec.sat` is `Spec.passes` at an inner object) -/
+theorem spec_nested (fold : σ → σ) (s : Schema σ) (kv : JO σ) (r : σ) (g : Filter σ) :
+    Spec.passes fold s kv (.nested r g) =
+      Spec.bind (rootProps s) kv r (fun p o => Spec.sat fold p o g) :=
+  Spec.sat_nested fold (rootProps s) kv r g
+
+/-- `And`: the members that are not nested clauses all hold, and for every path named by nested
+members ONE object of that child satisfies all their inner filters together -/
+theorem spec_and (fold : σ → σ) (s : Schema σ) (kv : JO σ) (fs : List (Filter σ)) :
+    Spec.passes fold s kv (.and fs) =
+      ((fs.filter (fun f => !f.isNested)).all (Spec.passes fold s kv) &&
+       (groupPaths fs).all (fun r =>
+         Spec.bind (rootProps s) kv r (fun p o => Spec.sat fold p o (.and (inners r fs))))) :=
+  Spec.sat_and fold (rootProps s) kv fs
+
+/-- the same equations hold at every inner object -/
+theorem spec_inner_and (fold : σ → σ) (props : NProps σ) (kv : JO σ) (fs : List (Filter σ)) :
+    Spec.sat fold props kv (.and fs) =
+      ((fs.filter (fun f => !f.isNested)).all (Spec.sat fold props kv) &&
+       (groupPaths fs).all (fun r =>
+         Spec.bind props kv r (fun p o => Spec.sat fold p o (.and (inners r fs))))) :=
+  Spec.sat_and fold props kv fs
+
+theorem spec_inner_nested (fold : σ → σ) (props : NProps σ) (kv : JO σ) (r : σ) (g : Filter σ) :
+    Spec.sat fold props kv (.nested r g) =
+      Spec.bind props kv r (fun p o => Spec.sat fold p o g) :=
+  Spec.sat_nested fold props kv r g
 
 /-! ## the clause tests say what the documentation says -/
 
@@ -140,6 +196,12 @@ example :
     Spec.passes id wSchema wDocOk
       (.and [.nested 1 (.leaf [2] (.kwEq 10)), .not (.nested 1 (.leaf [2] (.kwEq 12)))]) = true :=
   by decide
+
+/-- a dotted path at the top level: any `t` below any `r` below any `c` -/
+example : (Filter.leaf [1, 3, 4] (Clause.kwEq 21)).plainInside = true ∧
+    Col.passes id (flatten wSchema wDocOk) (.leaf [1, 3, 4] (.kwEq 21)) = true ∧
+    Spec.passes id wSchema wDocOk (.leaf [1, 3, 4] (.kwEq 21)) = true ∧
+    Spec.passes id wSchema wDocOk (.leaf [1, 3, 4] (.kwEq 22)) = false := by decide
 
 example : (Clause.i64Range (σ := Nat) 2 5).test id .i64 (.num 5 0) = true ∧
     (Clause.i64Range (σ := Nat) 2 5).test id .i64 (.num 6 0) = false ∧
